@@ -77,6 +77,7 @@ let show_res = function
   | RId x -> show_sid x | ROk -> "ok" | RLocked -> "locked" | RNoSession -> "nosession" | RNoHandler -> "nohandler"
   | RInvalid -> "invalid" | RSetFail -> "setfail" | RCycle -> "cycle" | RDepMissing -> "depmissing" | RDepErr -> "deperr"
   | RNoChanges -> "nochanges" | RPrecommit -> "precommit" | RApplyFail -> "applyfail" | RFrrTest -> "frrtest"
+  | RFrrReloadU -> "frrreloadU" | RStartupSaveU -> "startupsaveU"
   | RFrrReload -> "frrreload" | RStartupSave -> "startupsave" | RVersionSave -> "versionsave"
   | RBadVersion -> "badversion" | RBadVerType -> "badvertype" | RNotImpl -> "notimpl" | RModelFuel -> "MODELFUEL"
   | RInadmissible -> "INADMISSIBLE" | RBootErr -> "booterr" | RBootVersion -> "bootversion"
@@ -201,7 +202,7 @@ let faults_of_token (ft : string) : faults =
   let rbk = (match String.index_opt fl 'q' with
       | Some j when j + 1 < String.length fl -> Char.code fl.[j + 1] - 48 | _ -> 0) in
   { f_apply = nat_of_int k; f_rollback = nat_of_int rbk; f_test = has 't';
-    f_reload = nat_of_int (if has 'R' then 2 else if has 'r' then 1 else 0);
+    f_reload = nat_of_int (if has 'R' then 2 else if has 'r' then 1 else 0); f_restore = has 'u';
     f_startup = has 's'; f_version = has 'v' }
 (* the order in which the implementation's walker emitted changes: "E:<path>=<value>" entries of its trace *)
 let emitted_of_impl (impl : string) (stepno : int) : (n list * value) list =
@@ -302,12 +303,7 @@ let run_case (var : variant) (line0 : string) (impl : string) : string =
             let i = String.index ft ':' in
             let k = int_of_string (String.sub ft 0 i) in
             let fl = String.sub ft (i + 1) (String.length ft - i - 1) in
-            let has c = String.contains fl c in
-            let rbk = (match String.index_opt fl 'q' with
-                | Some j when j + 1 < String.length fl -> Char.code fl.[j + 1] - 48 | _ -> 0) in
-            let o = OCommit (sid f.(!p + 1), { f_apply = nat_of_int k; f_rollback = nat_of_int rbk; f_test = has 't';
-                                               f_reload = nat_of_int (if has 'R' then 2 else if has 'r' then 1 else 0);
-                                               f_startup = has 's'; f_version = has 'v' }) in
+            let o = OCommit (sid f.(!p + 1), faults_of_token ft) in
             p := !p + 3; o
           | _ -> failwith "bad op" in
         let ((st', r), evs) = step var reg g !st o in
@@ -331,8 +327,8 @@ let () =
   let lines = read_lines Sys.argv.(1) in
   let var = if Array.length Sys.argv > 3 then
       (match Sys.argv.(3) with
-       | "defective" -> defective | "persist_defect" -> persistDefect | "set_defect" -> setDefect
-       | "frr_defect" -> frrDefect | _ -> repaired)
+       | "head" -> head | "restore_unreported" -> restoreUnreported | "boot_unatomic" -> bootUnatomic
+       | "defective" -> defective | "frr_defect" -> frrDefect | _ -> repaired)
     else repaired in
   let impls = if Array.length Sys.argv > 2 && Sys.argv.(2) <> "-" then read_lines Sys.argv.(2) else [] in
   let impls = Array.of_list impls in
